@@ -419,6 +419,9 @@ benign("c01-dispatch-none-first", "C01", SSD,
        "    if scratch.ll_rle.is_some() || scratch.ml_rle.is_some() || scratch.of_rle.is_some() {\n        decode_sequences_with_rle(section, &mut br, scratch, target)\n    } else {\n        decode_sequences_without_rle(section, &mut br, scratch, target)\n    }",
        "    if scratch.of_rle.is_none() && scratch.ll_rle.is_none() && scratch.ml_rle.is_none() {\n        decode_sequences_without_rle(section, &mut br, scratch, target)\n    } else {\n        decode_sequences_with_rle(section, &mut br, scratch, target)\n    }")
 
+benign("c01-dispatch-named-flag", "C01", SSD,
+       "    if scratch.ll_rle.is_some() || scratch.ml_rle.is_some() || scratch.of_rle.is_some() {",
+       "    let any_rle = scratch.ll_rle.is_some() || scratch.ml_rle.is_some() || scratch.of_rle.is_some();\n    if any_rle {")
 # the frame header's little-endian fields read with from_le_bytes of fresh zeroed arrays (the correct twin of seed C09-c)
 patch_case("le-fields-from-le-bytes", "benign", ["C01", "C03", "C09", "C10", "C11", "C14"], "selftest/patches/benign-le-from-bytes.diff")
 
